@@ -270,22 +270,22 @@ def _same_term(a, b):
     return a == b
 
 
-def _check_binned_where_it_is(eng, cells, structures, log, atoms, size, what):
+def _check_binned_where_it_is(eng, cells, structures, log, atoms, size, what, label="cell-matches-coordinates"):
     for a in atoms:
         reg = log.at.get(id(a))
-        eng.check(reg is not None, "has-cell", note=f"{a.name} is not in the cell map after {what}")
+        eng.check(reg is not None, "has-cell" if label == "cell-matches-coordinates" else label, note=f"{a.name} is not in the cell map after {what}")
         if reg is None:
             continue
         cur = (a.x, a.y, a.z)
         if all(_same_term(r, c) for r, c in zip(reg, cur)):
-            eng.check(True, "cell-matches-coordinates")
+            eng.check(True, label)
             continue
         with patched(*_shims(eng, cells)):
             probe = structures.Atom()
             probe.x, probe.y, probe.z = reg
             k_reg = _expected_key(cells, size, probe, structures)
             k_cur = _expected_key(cells, size, a, structures)
-        eng.check(And(*[core.same(k_reg[d], k_cur[d]) for d in range(3)]), "cell-matches-coordinates", note=f"{a.name}: binned at {tuple(str(v) for v in reg)} but located at {tuple(str(v) for v in cur)} after {what} (neighbour queries look in the wrong cell)")
+        eng.check(And(*[core.same(k_reg[d], k_cur[d]) for d in range(3)]), label, note=f"{a.name}: binned at {tuple(str(v) for v in reg)} but located at {tuple(str(v) for v in cur)} after {what} (neighbour queries look in the wrong cell)")
 
 
 def h_debump_scan(eng, resname, steps, rounds, size=2):
@@ -349,6 +349,226 @@ def h_debump_scan(eng, resname, steps, rounds, size=2):
         ok = deb.debump_residue(res, [moved[0]])
     eng.note(f"debump_residue -> {ok}; {calls}")
     _check_binned_where_it_is(eng, cells, structures, log, Bio.atoms, size, f"debump_residue (returned {ok})")
+
+
+# ---------------------------------------------------------------------------
+# Q4c: the water / alcohol placement call sites (hydrogens/structures.py Water.finalize / complete,
+# Alcoholic.finalize / complete and the optimize.py helpers they use).  Real code on a real SER + HOH
+# structure; the rotation about a bond is abstracted (periodic: a full turn restores the terms, any other
+# cumulative angle gives arbitrary symbolic positions), which iteration of a scan wins and whether there is
+# a neighbour are symbolic selectors.  Obligation: when the call returns every atom of the residue is in the
+# map, binned where it is, and nothing else of that residue is in the map.
+# ---------------------------------------------------------------------------
+
+
+class _Turns:
+    """periodic abstraction of Residue.rotate_tetrahedral's quat.qchichange"""
+
+    def __init__(self, eng):
+        self.eng = eng
+        self.state = {}
+        self.memo = {}
+        self.serial = 0
+        self.n20 = 0
+        self.ctx = None
+
+    def wrap(self, real_rotate):
+        turns = self
+
+        def rotate(atom1, atom2, angle):
+            turns.ctx = (atom1, atom2, [a for a in atom2.bonds if a != atom1])
+            if angle == 20.0:
+                turns.n20 += 1
+            try:
+                return real_rotate(atom1, atom2, angle)
+            finally:
+                turns.ctx = None
+
+        return rotate
+
+    def qchichange(self, initcoords, movecoords, angle):
+        atom1, atom2, movers = self.ctx
+        if len(movers) != len(movecoords):
+            raise core.Inconclusive("rotate_tetrahedral moved another set of atoms than atom2's other bond partners")
+        out = []
+        for a in movers:
+            cur = (a.x, a.y, a.z)
+            st = self.state.get(id(a))
+            axis = (id(atom1), id(atom2))
+            if st is None or st["axis"] != axis or not all(_same_term(c, l) for c, l in zip(cur, st["last"])):
+                self.serial += 1
+                st = self.state[id(a)] = {"axis": axis, "init": cur, "cum": 0.0, "epoch": self.serial}
+            st["cum"] = (st["cum"] + angle) % 360.0
+            if st["cum"] == 0.0:
+                new = st["init"]
+            else:
+                key = (id(a), st["epoch"], st["cum"])
+                if key not in self.memo:
+                    tag = f"{a.name}_e{st['epoch']}_at{int(st['cum'])}"
+                    self.memo[key] = tuple(self.eng.real(f"{tag}_{ax}") for ax in "xyz")
+                new = self.memo[key]
+            st["last"] = new
+            out.append(new)
+        # the caller adds atom1's coordinates back; hand over the absolute target and let it cancel exactly
+        return [_Rel(n, atom1) for n in out]
+
+    def settle(self):
+        """positions as the caller stored them (new - atom1 + atom1): remember them as 'last'"""
+
+
+class _Rel:
+    """newcoords[i][k] + atom1.<k>  ==  the absolute coordinate (exact cancellation of the caller's shift)"""
+
+    def __init__(self, absolute, atom1):
+        self.abs = absolute
+
+    def __getitem__(self, k):
+        return _Shifted(self.abs[k])
+
+
+class _Shifted:
+    def __init__(self, v):
+        self.v = v
+
+    def __add__(self, other):
+        return self.v
+
+    __radd__ = __add__
+
+
+def _site_setup(kind):
+    from pdb2pqr import debump, hydrogens
+
+    lines = [ln for ln in fixtures.peptide_lines(["ALA", "SER" if kind == "alcohol" else "ALA", "ALA"]) if not ln.startswith("END")]
+    lines.append(fixtures.atom_line(900, "O", "HOH", "W", 50, 3.0, 8.0, 2.0, record="HETATM"))
+    bm, _ = fixtures.prepared(lines)
+    if bm.num_missing_heavy:
+        bm.repair_heavy()
+    bm.add_hydrogens()
+    deb = debump.Debump(bm)
+    routines = hydrogens.HydrogenRoutines(deb, hydrogens.create_handler())
+    routines.set_optimizeable_hydrogens()
+    bm.hold_residues(None)
+    routines.initialize_full_optimization()
+    want = "Alcoholic" if kind == "alcohol" else "Water"
+    obj = [o for o in routines.optlist if type(o).__name__ == want][0]
+    return bm, deb, obj
+
+
+def h_hydrogen_site(eng, kind, pre, then_complete):
+    """kind: water | alcohol; pre: names of atoms placed (and binned, as the try_* helpers do) before finalize()"""
+    from pdb2pqr import residue as residue_mod
+    from pdb2pqr import utilities
+    from pdb2pqr.hydrogens import optimize
+    from pdb2pqr.hydrogens import structures as hs
+
+    cells, structures = _mods()
+    bm, deb, obj = _site_setup(kind)
+    res = obj.residue
+    centre = obj.atomlist[0]
+    log = _CoordLog()
+    log.assign_cells(bm)
+    deb.cells = log
+    turns = _Turns(eng)
+    neighbour = [a for a in bm.atoms if a.residue is not res and a.name == "CA"][0]
+    lazy = {}
+
+    def sel(name, n=None):
+        """symbolic selector, created (and forked on) only when the code under test first depends on it"""
+        if name not in lazy:
+            lazy[name] = eng.flag(name) if n is None else eng.choice(name, n)
+        return lazy[name]
+
+    calls = {"closest": 0, "dist": 0, "energy": 0, "queries": 0}
+
+    used = {}
+
+    def scan_call(kind, per_iter):
+        """does this stub call belong to an iteration of a 20-degree scan (per_iter calls of its kind per iteration)?"""
+        if turns.n20 == 0:
+            return False
+        key = (kind, turns.n20)
+        used[key] = used.get(key, 0) + 1
+        return used[key] <= per_iter
+
+    def winning():
+        b = sel("winning_iteration", 19)  # 18: no iteration beats the start
+        return b < 18 and (turns.n20 - 1) % 18 == b
+
+    def query_from(atom, what):
+        """a neighbour query starts from the cell recorded for the atom: it must be the cell the atom is in"""
+        calls["queries"] += 1
+        _check_binned_where_it_is(eng, cells, structures, log, [atom], 5, f"{what} (query {calls['queries']})", label="query-from-current-cell")
+
+    def closest(atom):
+        calls["closest"] += 1
+        query_from(atom, f"get_closest_atom({atom.name}) during {type(obj).__name__}.finalize")
+        if scan_call("closest", 1):
+            return neighbour if sel("winning_iteration", 19) < 18 else None
+        return neighbour if sel(f"neighbour_found_{min(calls['closest'], 3)}") else None
+
+    def distance(a, b):
+        calls["dist"] += 1
+        if scan_call("distance", 1):
+            return 2.0 if winning() else 1.0
+        # two-position comparison: dist1, then the second position
+        calls["pair"] = calls.get("pair", 0) + 1
+        return 1.0 if calls["pair"] % 2 else (1.5 if sel("second_position_better") else 0.5)
+
+    def energy(a, b):
+        calls["energy"] += 1
+        if scan_call("energy", 2):
+            return -1.0 if winning() else 0.0
+        # two-position comparison (two calls per position)
+        return 0.0 if calls["energy"] <= 2 else (-1.0 if sel("second_position_better") else 1.0)
+
+    def near_cells(atom):
+        query_from(atom, f"get_near_cells({atom.name}) during {type(obj).__name__}.finalize")
+        return [neighbour]
+
+    log.get_near_cells = near_cells
+
+    class Util:
+        def __getattr__(self, name):
+            return getattr(utilities, name)
+
+    fake_util = Util()
+    fake_util.distance = distance
+    opt_util = Util()
+    opt_util.distance = lambda a, b: 1.0 if sel("first_rotated_position_free") else 0.0  # get_position_with_three_bonds' occupancy test
+
+    class Quat:
+        qchichange = staticmethod(turns.qchichange)
+
+        def __getattr__(self, name):
+            from pdb2pqr import quatfit
+
+            return getattr(quatfit, name)
+
+    real_rotate = res.rotate_tetrahedral
+    res.rotate_tetrahedral = turns.wrap(real_rotate)
+    deb.get_closest_atom = closest
+    with patched((residue_mod, "quat", Quat()), (hs, "util", fake_util), (optimize, "util", opt_util), (optimize.Optimize, "get_pair_energy", staticmethod(energy))):
+        # pre-placed atoms: created and binned the way make_atom_with_no_bonds / try_* do it
+        for k, nm in enumerate(pre):
+            pos = [centre.x + (1.0 if k == 0 else -0.3), centre.y + (0.0 if k == 0 else 0.9), centre.z + 0.1 * k]
+            res.create_atom(nm, pos)
+            na = res.get_atom(nm)
+            log.add_cell(na)
+            if na not in centre.bonds:
+                centre.bonds.append(na)
+            if centre not in na.bonds:
+                na.bonds.append(centre)
+        obj.finalize()
+        what = "finalize()"
+        if then_complete:
+            obj.complete()
+            what = "finalize(); complete()"
+    eng.note(f"{kind} {pre} -> atoms {[a.name for a in res.atoms]}; scans {turns.n20 // 18}; {calls}")
+    _check_binned_where_it_is(eng, cells, structures, log, list(res.atoms), 5, f"{type(obj).__name__}.{what} on {res.name} with {list(pre) or 'no'} atoms placed before")
+    mine = {id(a) for a in res.atoms}
+    ghosts = sorted(a.name for i, a in log.atoms.items() if a.residue is res and i not in mine)
+    eng.check(not ghosts, "deleted-atoms-leave-the-cell-map", note=f"{res.name}: atoms {ghosts} were deleted from the residue but are still listed in the cell map after {what}")
 
 
 # ---------------------------------------------------------------------------
@@ -459,6 +679,10 @@ def obligations(tier):
         obs.append(Obligation(f"debump-site-SER-chi1-size{s}", h_debump_site, {"resname": "SER", "anglenum": 0, "size": s}, group="debump-site", time_cap=3000, max_paths=200000))
     for resname, steps, rounds in (("SER", 3, 1),) if tier == "quick" else (("SER", 3, 2), ("SER", 4, 1), ("CYS", 3, 1), ("LYS", 3, 1), ("ARG", 2, 2)):
         obs.append(Obligation(f"debump-scan-{resname}-steps{steps}-rounds{rounds}", h_debump_scan, dict(resname=resname, steps=steps, rounds=rounds), group="debump-scan", time_cap=3000, max_paths=200000))
+    for kind, pres in (("water", ((), ("H1",), ("H1", "LP1"), ("LP1", "LP2"), ("H1", "LP1", "LP2"))), ("alcohol", ((), ("LP1",), ("LP1", "LP2")))):
+        for pre in pres:
+            for then_complete in (False, True):
+                obs.append(Obligation(f"hydrogen-site-{kind}-{'+'.join(pre) or 'bare'}{'-complete' if then_complete else ''}", h_hydrogen_site, dict(kind=kind, pre=list(pre), then_complete=then_complete), group="hydrogen-site", time_cap=1200))
     if tier == "thorough":
         obs.append(Obligation("debump-site-CYS-chi1-size2", h_debump_site, {"resname": "CYS", "anglenum": 0, "size": 2}, group="debump-site", time_cap=3000, max_paths=200000))
     for r in ("ASN",) if tier == "quick" else ("ASN", "GLN", "HIS"):
